@@ -424,6 +424,32 @@ def run_d1(case, ctx):
                     else:
                         if case['ending'] == 'hard_setup' and _ls(os.path.join(root, 'result')) != []:
                             bad('result/ not empty although the act phase never ran: %r' % _ls(os.path.join(root, 'result')))
+    # the same case executed as a member of a suite (`exactly suite`): every execution uses its own sandbox, which is
+    # removed when the case ends, and the process is left as it was
+    if not case['keep'] and not r.timed_out and 'cd_deleted' not in case['disturb'] and \
+            (len(text) + case['rc']) % 3 == 0:
+        ses.clean_tmp()
+        driver.write_files(d, {'two.case': '[act]\n$ true\n', 's.suite': '[cases]\nt.case\ntwo.case\n'})
+        rs = ses.run(['suite', os.path.join(d, 's.suite')], cwd=d, mode=None)
+        ctx.count('c04.suite_run_checks')
+        if rs.timed_out:
+            inconc.append('watchdog (suite run)')
+        elif rs.exc is not None:
+            bad('suite run: exception escaped: %s' % rs.exc[-300:])
+        else:
+            if rs.new_tmp_entries:
+                bad('suite run: entries left in the temporary directory after `exactly suite` (the sandboxes of its '
+                    'cases must be removed): %r' % (rs.new_tmp_entries,))
+            if rs.cwd_after != rs.cwd_before:
+                bad('suite run: current directory of the Exactly process is %r after the run, was %r'
+                    % (rs.cwd_after, rs.cwd_before))
+            if rs.env_after != rs.env_before:
+                bad('suite run: environment of the Exactly process changed')
+            n_mk = len([a for a in rs.audit if a[0] == 'tempfile.mkdtemp'
+                        and os.path.basename(str(a[1])).startswith('exactly-')])
+            if exp['sandbox'] and n_mk < 2:
+                bad('suite run: %d sandboxes were created for two executed cases (each execution uses a freshly '
+                    'created sandbox)' % n_mk)
     os.environ.pop('VF_C04_A', None)
     os.environ.pop('VF_C04_B', None)
     ses.clean_tmp()
